@@ -804,8 +804,11 @@ func (s *Session) MapExecuteBatchCAS(batch *Batch, dest map[string]interface{}) 
 		return false, nil, err
 	}
 	iter.MapScan(dest)
-	applied = dest["[applied]"].(bool)
+	applied, ok := dest["[applied]"].(bool)
 	delete(dest, "[applied]")
+	if !ok && iter.err == nil {
+		iter.err = errNoAppliedColumn
+	}
 
 	// we usually close here, but instead of closing, just returin an error
 	// if MapScan failed. Although Close just returns err, using Close
@@ -1393,10 +1396,14 @@ func (q *Query) MapScanCAS(dest map[string]interface{}) (applied bool, err error
 		return false, err
 	}
 	iter.MapScan(dest)
-	applied = dest["[applied]"].(bool)
+	applied, ok := dest["[applied]"].(bool)
 	delete(dest, "[applied]")
 
-	return applied, iter.Close()
+	err = iter.Close()
+	if err == nil && !ok {
+		err = errNoAppliedColumn
+	}
+	return applied, err
 }
 
 // Release releases a query back into a pool of queries. Released Queries
@@ -2307,6 +2314,7 @@ func (e Error) Error() string {
 
 var (
 	ErrNotFound             = errors.New("not found")
+	errNoAppliedColumn      = errors.New("gocql: the result of the conditional statement has no boolean [applied] column")
 	ErrUnavailable          = errors.New("unavailable")
 	ErrUnsupported          = errors.New("feature not supported")
 	ErrTooManyStmts         = errors.New("too many statements")
